@@ -37,6 +37,10 @@ type DRule struct {
 type C16Style struct {
 	Seed      []byte `json:"seed"` // drives case / indentation / continuation / comment choices
 	SplitFile bool   `json:"split_file,omitempty"`
+	// TrailingContinuation: the text ends with a line-continuation backslash after its last directive
+	TrailingContinuation bool `json:"trailing_continuation,omitempty"`
+	// LongComment: a comment line of 70000 characters stands in front of one of the rules
+	LongComment bool `json:"long_comment,omitempty"`
 }
 
 type C16Case struct {
@@ -59,7 +63,9 @@ var c16RxKeys = []string{"^a", "a|b", "x\\/y", "^(a|b)$", "a,b", "a:b", "it's", 
 	// upper-case letters: the same text means different compiled keys on case-sensitive (ARGS*) and case-insensitive collections
 	"^X-Tok", "[A-C]+x", "^Foo\\d", "^X-Tok"}
 var c16OpArgs = []string{"abc", "a b", "a,b:c", "it's", "say \"hi\"", "\"", "a\\b", "\\d+\\s", "^(?:a|b)$", "x\\\\y", "%{tx.a}", "'quoted'", "a|b", "é\xff", "`tick`", "#nocomment", "a  b", "\t tab", "@not-an-op", "!bang", "\\\\", "100%"}
-var c16ActVals = []string{"abc", "a b", "a, b: c", "it\\'s", "with:colon", "with,comma", "\\'", "a\\'b, c\\'d", "%{tx.a} x", "\"dq\"", "é", "a\\\\b", "semi;colon", "x=y"}
+var c16ActVals = []string{"abc", "a b", "a, b: c", "it\\'s", "with:colon", "with,comma", "\\'", "a\\'b, c\\'d", "%{tx.a} x", "\"dq\"", "é", "a\\\\b", "semi;colon", "x=y",
+	// a value whose last character is an escaped backslash: the quote that follows closes the value
+	"C:\\\\", "tail\\\\"}
 
 func genC16Target(t *rapid.T, neg bool) Target {
 	v := rapid.SampledFrom(c16Vars).Draw(t, "var")
@@ -189,7 +195,8 @@ func genC16(t *rapid.T) *C16Case {
 	}
 	ns := rapid.IntRange(3, 5).Draw(t, "nstyles")
 	for i := 0; i < ns; i++ {
-		c.Styles = append(c.Styles, C16Style{Seed: rapid.SliceOfN(rapid.Byte(), 4, 12).Draw(t, "styleseed"), SplitFile: rapid.IntRange(0, 3).Draw(t, "split") == 0})
+		c.Styles = append(c.Styles, C16Style{Seed: rapid.SliceOfN(rapid.Byte(), 4, 12).Draw(t, "styleseed"), SplitFile: rapid.IntRange(0, 3).Draw(t, "split") == 0,
+			TrailingContinuation: rapid.IntRange(0, 5).Draw(t, "trailcont") == 0, LongComment: rapid.IntRange(0, 9).Draw(t, "longcomment") == 0})
 	}
 	if rapid.IntRange(0, 2).Draw(t, "nearmiss") == 0 {
 		c.NearMiss = rapid.SampledFrom([]string{"del-quote", "dup-open-quote", "del-pipe", "dup-pipe", "dup-comma", "trailing-comma", "del-id-colon", "del-blank"}).Draw(t, "misskind")
@@ -352,7 +359,16 @@ func (c *C16Case) renderAll(style *C16Style) (main string, files map[string]stri
 			sb.WriteString("# a comment line, \"quotes\" and 'all' \\\n")
 			sb.WriteString("\n   \n")
 		}
+		if style != nil && style.LongComment && i == len(c.Rules)/2 {
+			sb.WriteString("# " + strings.Repeat("long comment ", 5400) + "\n")
+		}
 		text := r.render(st)
+		if style != nil && style.TrailingContinuation && i == len(c.Rules)-1 {
+			text = strings.TrimRight(text, "\n") + " \\"
+			if st.next()%2 == 0 {
+				text += "\n"
+			}
+		}
 		if style != nil && style.SplitFile && i > 0 {
 			name := fmt.Sprintf("c16-%d-%d.conf", os.Getpid(), i)
 			files[name] = text
@@ -615,6 +631,9 @@ func (c *C16Case) nearMissText() (string, bool) {
 	switch c.NearMiss {
 	case "del-quote":
 		q := quotes[c.MissArg%4]
+		if q == len(first)-1 && q > 0 && first[q-1] == '\\' {
+			return "", false // without its closing quote the line would end in a continuation backslash: another text, not a near miss
+		}
 		return first[:q] + first[q+1:] + rest, true
 	case "dup-open-quote":
 		q := quotes[(c.MissArg%2)*2] // operator or action list opening quote
@@ -709,6 +728,59 @@ func checkC16(c *C16Case) Result {
 		}
 		if strings.Contains(text, "\\\n") {
 			res.Labels = append(res.Labels, "line-continuation")
+		}
+		if c.Styles[si].TrailingContinuation {
+			res.Labels = append(res.Labels, "text-ends-with-continuation")
+		}
+		if c.Styles[si].LongComment {
+			res.Labels = append(res.Labels, "line-longer-than-64k")
+		}
+	}
+	// (b2) plain keys written between single quotes (VAR:'key'): the same rules, or an error - never another key
+	{
+		quoted := &C16Case{}
+		n := 0
+		for _, r := range c.Rules {
+			cp := *r
+			cp.Targets = append([]Target(nil), r.Targets...)
+			for i := range cp.Targets {
+				k := cp.Targets[i].Key
+				if !cp.Targets[i].Rx && k != "" && !strings.ContainsAny(k, "'|\" \\%") && k[0] != '/' {
+					cp.Targets[i].Key = "'" + k + "'"
+					n++
+				}
+			}
+			cp.Chain = nil
+			for _, l := range r.Chain {
+				lc := *l
+				lc.Targets = append([]Target(nil), l.Targets...)
+				for i := range lc.Targets {
+					k := lc.Targets[i].Key
+					if !lc.Targets[i].Rx && k != "" && !strings.ContainsAny(k, "'|\" \\%") && k[0] != '/' {
+						lc.Targets[i].Key = "'" + k + "'"
+						n++
+					}
+				}
+				cp.Chain = append(cp.Chain, &lc)
+			}
+			quoted.Rules = append(quoted.Rules, &cp)
+		}
+		if n > 0 {
+			text, _ := quoted.renderAll(nil)
+			vr, err, f := compileText(text, nil)
+			if f != nil {
+				res.Fail = f
+				return res
+			}
+			if err != nil {
+				res.Labels = append(res.Labels, "quoted-key-rejected")
+			} else {
+				if d := diffDumps(base, deepDump(vr, c16Mask)); d != "" {
+					res.Fail = failf("plain keys written between single quotes compile to different rules (- canonical, + quoted):\n%s--- canonical\n%s--- quoted\n%s", d, canon, text)
+					return res
+				}
+				res.Labels = append(res.Labels, "quoted-key-same-rule")
+			}
 		}
 	}
 	// (c) near-miss texts are rejected
